@@ -51,7 +51,22 @@ sizes:     notes/SIZE_STRESS.md: the abstract case stays, the concretization get
            change lines takes the CChange self-loop, blank lines HBlank / CBlank, block follows block as in
            the grammar (closed LTS of C15); expectations stay TLC's.
 objects:   earlier Changelog objects are kept alive and re-verified (text and fields) after other objects
-           were parsed, edited and formatted.
+           were parsed, edited and formatted.  The objects the API hands out as values of their own -- the
+           Version objects of block.version / cl.version / cl.get_version() / cl.versions, the versions list
+           -- are edited IN PLACE (spec: MutVer leaves the document unchanged; invariant ExposedAsWritten;
+           negative control Bug = "InternedVersions"); afterwards the same text (and later other texts with
+           the same version strings) is parsed again and must expose what is written.  The version of the
+           block whose own handed-out Version was edited is not judged on that object.
+forms:     the text arrives in every form the constructor documents ("str, list of str, or file-like ... an
+           iterator of lines such as a filehandle"; the type comment adds bytes and iterables of bytes
+           lines; lines with and without newline): str, bytes, StringIO, BytesIO, a real file, lists of
+           lines with / without newlines, of bytes lines, a generator, a tuple, and parse_changelog() on a
+           new and on an already used object -- identical verdicts (spec: PEofF; the forms differ on
+           blank-only texts only, FormsAgree).
+characters: notes/SIZE_STRESS.md part 2: decomposed text next to its precomposed twin, singletons, ligatures,
+           full-width forms, Hangul jamo, case-mapping hazards, U+FEFF / joiners / soft hyphen / bidi marks,
+           non-BMP, white-space look-alikes inside tokens, line-final characters whose UTF-8 form ends in
+           every byte 0x80..0xBF, tab / space mixes; D1 characters stay excluded; comparisons by code point.
 domain:    DESIGN D1 (no str.splitlines() boundary character inside a line), D2 (valid versions); exactly
            one space after ';' and ', ' between key=value items, "urgency" first and lower-case, no
            commas / trailing white space in values, exactly two spaces before the date, blank lines are
